@@ -1031,7 +1031,7 @@ def register_branch(R, path_obj):
         return (isinstance(r, X.SRows) and r.inner == (2,)) or (isinstance(r, NArr) and r.shape == (0, 2))
 
     R.add(f"{COMP}:Compartments.get_ndata", prop="C09",
-          variants={k: (lambda S, _k=k: comps_setup(S, key=_k)) for k in KEYS}, requires=CPRE,
+          variants=in_both_layouts({k: (lambda S, _k=k: comps_setup(S, key=_k)) for k in KEYS}), requires=CPRE,
           ensures=[("one-row-(parent-value,child-value)-per-compartment-in-order-in-a-fresh-array", rows_post(lambda v: v["key"])),
                    # found a defect (fixed in /repo, see known_findings.jsonl): np.array([]) of an EMPTY Compartments (the segments of a
                    # one-node tree) had shape (0,), not the documented (n_sample, 2)
@@ -1039,7 +1039,7 @@ def register_branch(R, path_obj):
           options=dict(OPTS))
 
     for k in KEYS:
-        R.add(f"{COMP}:Compartments.{k}", prop="C09", setup=lambda S: comps_setup(S), requires=CPRE,
+        R.add(f"{COMP}:Compartments.{k}", prop="C09", variants=in_both_layouts(lambda S: comps_setup(S)), requires=CPRE,
               ensures=[(f"one-row-(parent-{k},child-{k})-per-compartment-in-order-in-a-fresh-array", rows_post(lambda v, _k=k: _k))], options=dict(OPTS))
 
     def stacked_post(names):
@@ -1059,7 +1059,7 @@ def register_branch(R, path_obj):
     # found a defect (fixed in /repo): on an EMPTY Compartments (a one-node tree has no segment) xyz()/xyzr() raised numpy's AxisError
     # (a ValueError) instead of returning an array of shape (0, 2, 3) / (0, 2, 4): obligation exc/unexpected-ValueError
     for fn, names in (("xyz", ("x", "y", "z")), ("xyzr", ("x", "y", "z", "r"))):
-        R.add(f"{COMP}:Compartments.{fn}", prop="C09", setup=lambda S: comps_setup(S), requires=CPRE,
+        R.add(f"{COMP}:Compartments.{fn}", prop="C09", variants=in_both_layouts(lambda S: comps_setup(S)), requires=CPRE,
               ensures=[(f"(n_sample,2,{len(names)})-array-of-the-(parent,child)-{'-'.join(names)}-in-order", stacked_post(names))], options=dict(OPTS))
 
     # ------------------------------------------------------------------ Branch.from_xyzr
